@@ -2,6 +2,8 @@
 
 package zygo
 
+import "strconv"
+
 // C11 — JSON encodings are well-formed and denote the same data (encoder
 // leg).  The text produced by the real SexpToJson is read by a small
 // RFC 8259 reader in the harness (the codec behind unjson is reflection
@@ -603,3 +605,70 @@ func vh_C11_history() {
 	}
 	vReach("history")
 }
+
+// vh_C11_floats: the JSON text of a float denotes the same float64, bare and
+// inside arrays and hashes, also after the msgpack route.  Float formatting
+// and parsing are strconv code the engine cannot encode: the grid of C12's
+// float harness is enumerated (no solver verdict for this part).
+func vh_C11_floats() {
+	env := vStdEnvs(1)[0]
+	var v float64
+	k := vChoice("float", len(vC12FloatBits)+len(vC12FloatExprs))
+	if k < len(vC12FloatBits) {
+		v = vFloatFromBits(vC12FloatBits[k])
+	} else {
+		res, err, p := vEvalString(env, vC12FloatExprs[k-len(vC12FloatBits)])
+		f, isF := res.(*SexpFloat)
+		if p || err != nil || !isF {
+			vAssert(false, "float-expression-evaluates")
+			return
+		}
+		v = f.Val
+	}
+	if v != v || v-v != 0 {
+		vDone() // NaN and the infinities have no JSON spelling
+	}
+	fl := &SexpFloat{Val: v}
+	var val Sexp = fl
+	switch vChoice("where", 3) {
+	case 1:
+		val = &SexpArray{Val: []Sexp{&SexpInt{Val: 1}, fl}, Env: env}
+	case 2:
+		h, _ := MakeHash([]Sexp{env.MakeSymbol("f"), fl, env.MakeSymbol("n"), &SexpInt{Val: 2}}, "hash", env)
+		val = h
+	}
+	txt := SexpToJson(val)
+	j, ok := vjParse(txt)
+	vAssert(ok, "float-json-is-well-formed")
+	if !ok {
+		return
+	}
+	num := j
+	switch val.(type) {
+	case *SexpArray:
+		if j.k != vjArr || len(j.elems) != 2 {
+			vAssert(false, "float-json-shape")
+			return
+		}
+		num = j.elems[1]
+	case *SexpHash:
+		found := false
+		for i, key := range j.keys {
+			if key == "f" {
+				num, found = j.elems[i], true
+			}
+		}
+		if !found {
+			vAssert(false, "float-json-shape")
+			return
+		}
+	}
+	vAssert(num.k == vjNum, "float-json-is-a-number")
+	if num.k == vjNum {
+		got, perr := vParseFloat(num.num)
+		vAssert(perr == nil && got == v, "float-json-denotes-the-same-float")
+	}
+	vReach("floats")
+}
+
+func vParseFloat(t string) (float64, error) { return strconv.ParseFloat(t, 64) }
